@@ -119,8 +119,11 @@ def gen_cases(r, n):
             out.append(("MS default " + " ".join(ops), {"kind": "malformed", "sz": sz, "n": n, "payload": len(payload), "read": rd}))
         elif m < 0.90:
             # small max_length: badbit, writes after an error, then re-open and read
-            mx = r.choice([0, 1, 7, 8, 9, 15, 16, 17, 24, 31, 40])
             items = [gen_item(r, sizes8=True) for _ in range(r.randint(1, 5))]
+            # aim at the exact fit of the first k items (and one byte either side)
+            k = r.randint(1, len(items))
+            fit = sum(len(enc(i)) for i in items[:k])
+            mx = max(0, fit + r.choice([0, 0, 0, -1, 1])) if r.random() < 0.8 else r.choice([0, 1, 7, 8, 9, 15, 16, 17, 24, 31, 40])
             ops = [wop(i) for i in items] + ["re"] + [rop(i) for i in items]
             out.append(("MS %d %s" % (mx, " ".join(ops)), {"kind": "max", "items": items, "max": mx}))
         else:
@@ -208,6 +211,16 @@ def oracle(case, meta, impl):
             if any(s > 8 for s in bad_sz):
                 return (SIG_OVERRUN, "after write_vector with element size %s, length() exceeds the buffer size (%s)" % (bad_sz, impl[:160]))
             return ("memstream.overrun", "length() exceeds the buffer size: %s" % impl[:200])
+    if k == "max":
+        # writes succeed exactly while the data fits in max_length; after the first refusal nothing is written
+        want = b""
+        for i in items:
+            if len(want) + len(enc(i)) <= meta["max"]:
+                want += enc(i)
+            else:
+                break
+        if buf != hx(want):
+            return ("memstream.max_length", "with max_length %d the stream holds %s, expected the items that fit: %s" % (meta["max"], buf, hx(want)))
     if k == "rt":
         want = b"".join(enc(i) for i in items)
         ok = (buf == hx(want))
@@ -278,6 +291,7 @@ def run_codec(run, model, unit, quick):
         return
     mpos = {i: j for j, i in enumerate(ms_idx)}
     nviol = {}
+    nmis = 0
     for i, ((c, meta), io) in enumerate(zip(cases, impl)):
         k = meta.get("kind", "corpus")
         nontriv = k in ("rt", "trunc", "malformed", "max", "typed", "corpus") or "N|" in io
@@ -287,15 +301,17 @@ def run_codec(run, model, unit, quick):
             for it in meta["items"]:
                 if it[0] == "v":
                     run.dist("codec:vector_elem_size=%d" % it[1])
-        if k != "corpus" or "kind" in meta:
-            bad = oracle(c, meta, io) if meta.get("kind") != "corpus" else None
-            if bad:
-                nviol[bad[0]] = nviol.get(bad[0], 0) + 1
-                run.violation(bad[0], bad[1], {"kind": "unit", "case": c, "impl": io})
+        bad = oracle(c, meta, io) if meta.get("kind") != "corpus" else None
+        if bad:
+            nviol[bad[0]] = nviol.get(bad[0], 0) + 1
+            run.violation(bad[0], bad[1], {"kind": "unit", "case": c, "impl": io})
         if i in mpos:
             mo = mod[mpos[i]] if mpos[i] < len(mod) else "<none>"
             if mo != io:
-                run.mismatch("memstream", c, io, mo)
+                nmis += 1
+                if not bad:
+                    # a disagreement that no oracle turned into a failing input of the property itself
+                    run.mismatch("codec-tie", c, io, mo)
     run.sample({"codec_case": lines[len(lines) // 2], "impl": impl[len(lines) // 2]})
     run.cov["correspondence"].update({"codec_cases": len(ms_idx), "typed_roundtrips": len(lines) - len(ms_idx),
-                                      "codec_oracle_failures_by_signature": nviol})
+                                      "codec_oracle_failures_by_signature": nviol, "codec_model_disagreements": nmis})
